@@ -20,6 +20,10 @@ ENV_DECLS = [
     ("K100", "uint16", "100", ("r", Fraction(100))),
 ]
 ENV = {n: v for n, _t, _i, v in ENV_DECLS}
+# constants of a dependency, reached through the attribute operator on a versioned type reference
+DEP_TEXT = "uint16 KD = 300\nfloat32 KF = 2.5\nbool KB = false\nint8 KN = -7\nuint8[<=3] payload\n@sealed\n"
+ENV.update({"ens.Dep.1.0.KD": ("r", Fraction(300)), "ens.Dep.1.0.KF": ("r", Fraction(5, 2)), "ens.Dep.1.0.KB": ("b", False),
+            "Dep.1.0.KN": ("r", Fraction(-7)), "ens.Dep.1.0._extent_": ("r", Fraction(32))})
 
 
 # ------------------------------------------------------------------------------------------------------------------
@@ -131,9 +135,9 @@ def gen_scalar(rng, want):
             return gen_int(rng)
         if r < 0.85:
             return gen_real(rng)
-        return ("id", rng.choice(["K7", "KM3", "KQ", "K100"]))
+        return ("id", rng.choice(["K7", "KM3", "KQ", "K100", "ens.Dep.1.0.KD", "ens.Dep.1.0.KF", "Dep.1.0.KN", "ens.Dep.1.0._extent_"]))
     if want == "b":
-        return ("bool", rng.random() < 0.5) if rng.random() < 0.85 else ("id", "KT")
+        return ("bool", rng.random() < 0.5) if rng.random() < 0.85 else ("id", rng.choice(["KT", "ens.Dep.1.0.KB"]))
     if want == "s":
         return gen_str(rng)
     raise ValueError(want)
